@@ -57,7 +57,7 @@ def finding_pid(pid: str) -> str:
 
 
 def write_replay(prop, key, payload):
-    d = os.path.join(VERIF, "replays", prop)
+    d = os.path.join(os.environ.get("J2OV_REPLAY_DIR") or os.path.join(VERIF, "replays"), prop)
     os.makedirs(d, exist_ok=True)
     safe = "".join(c if c.isalnum() or c in "-_.=" else "_" for c in key)[:160]
     path = os.path.join(d, safe + ".json")
@@ -105,8 +105,9 @@ def finish(prop, tier, t0, *, level, coverage, assumptions, violations, harness_
     }
     if notes:
         ev["notes"] = notes
-    os.makedirs(os.path.join(VERIF, "evidence"), exist_ok=True)
-    with open(os.path.join(VERIF, "evidence", f"{prop}.json"), "w") as f:
+    evdir = os.environ.get("J2OV_EVIDENCE_DIR") or os.path.join(VERIF, "evidence")  # dev override only
+    os.makedirs(evdir, exist_ok=True)
+    with open(os.path.join(evdir, f"{prop}.json"), "w") as f:
         json.dump(ev, f, indent=1, default=str)
     if new:
         return 1
